@@ -220,6 +220,9 @@ func TestVerifC06Flow(t *testing.T) {
 			qc.datagrams = append(qc.datagrams, append([]byte{0x40 | byte(g.r.Intn(64))}, g.bytes(g.r.Range(20, 60))...))
 			kind = "short_header_after"
 		}
+		if qc.hasClose {
+			kind = "close_frame"
+		}
 		op, out := c06RunFlow(qc)
 		st.Emit(op, out)
 		g.stats.Inc("flow." + kind)
